@@ -486,7 +486,7 @@ theorem stepsOfH_allSingle {cfg : Cfg} {thr ch : Nat} {sfx : String} {h : Hint} 
   · rename_i hact
     split
     · rfl
-    · rfl
+    · simp [Step.single]
     · simp
     · rename_i m n hpay
       split
@@ -638,7 +638,7 @@ theorem stepsOfH_chainOrAt {cfg : Cfg} {thr ch : Nat} {sfx : String} {h : Hint} 
   · rename_i hact
     split
     · rfl
-    · rfl
+    · simp [Step.single, Step.path]
     · simp
     · rename_i m n hpay
       split
@@ -712,8 +712,9 @@ theorem nodeRun_skip_take (p : Path) (A B : List Step) (hA : ∀ s ∈ A, s.path
 /-- what an interrupted task may leave at a path other than its initial node, its final node -/
 inductive Garbage (cfg : Cfg) (thr : Nat) (sfx : String) (h : Hint) (old : Option DNode) (t : Task) :
     Path → Option SNode → Prop where
-  /-- the old entry is unlinked and the new one not yet created -/
-  | gone : t.payload ≠ .dir → t.act ≠ .delete → Garbage cfg thr sfx h old t t.rel none
+  /-- the old entry is unlinked and the new one not yet created (a file or link being replaced; or a destination
+      link being replaced by a directory — `update` with a directory payload, fix 862af11) -/
+  | gone : (t.payload = .dir → t.act = .update) → t.act ≠ .delete → Garbage cfg thr sfx h old t t.rel none
   /-- a file being copied in place: the first `l` bytes of the new content, mtime = time of the run -/
   | torn {m : FileMeta} {n : Nat} (l : Nat) : t.payload = .file m n → l ≤ m.size →
       Garbage cfg thr sfx h old t t.rel (some (.file m.content l h.now))
@@ -790,12 +791,44 @@ theorem task_prefix {cfg : Cfg} {thr ch : Nat} {sfx : String} {h : Hint} {old : 
         unfold stepsOfH; simp only [hdry, hpay]
         rcases hact with ha | ha <;> simp [ha]
       | dir =>
-        apply two
-        apply mkdir_only_prefix
-        intro s hs ht
-        have := stepsOfH_dir_mkdir hpay hdel hs
-        cases s <;> simp [Step.isMkdir] at this
-        simp only [Step.touches, beq_iff_eq] at ht; rw [ht]
+        rcases hact with ha | ha
+        · apply two
+          apply mkdir_only_prefix
+          intro s hs ht
+          have := stepsOfH_dir_mkdir hpay hdel (by rw [ha]; simp) hs
+          cases s <;> simp [Step.isMkdir] at this
+          simp only [Step.touches, beq_iff_eq] at ht; rw [ht]
+        · -- a link replaced by a directory: conditional unlink, then `create_dir_all`
+          have hL : stepsOfH cfg thr ch sfx h old t = Step.unlinkIfSymlink t.rel :: dirSteps t.rel := by
+            unfold stepsOfH; simp [hdry, ha, hpay]
+          have hsingle' := hsingle
+          rw [hL] at hsingle' ⊢
+          rw [applyAll_single _ (fun s hs => hsingle' s (List.mem_of_mem_take hs)),
+            applyAll_single _ hsingle']
+          have gone : Garbage cfg thr sfx h old t t.rel none := .gone (fun _ => ha) hdel
+          match n with
+          | 0 => left; rfl
+          | n + 1 =>
+            simp only [List.take_succ_cons, nodeRun_cons, Step.path, ↓reduceIte]
+            have hi1 : (Step.unlinkIfSymlink t.rel).nodeFn (w t.rel) = w t.rel ∨
+                (Step.unlinkIfSymlink t.rel).nodeFn (w t.rel) = none := by
+              simp only [Step.nodeFn]; split <;> simp
+            generalize (Step.unlinkIfSymlink t.rel).nodeFn (w t.rel) = i1 at hi1 ⊢
+            have hchain : ∀ s ∈ mkdirChain t.rel, s.path ≠ t.rel := by
+              intro s hs
+              obtain ⟨q, hq, rfl⟩ := mem_mkdirChain hs
+              exact ancestors_ne hq
+            unfold dirSteps
+            split
+            · right; left; simp
+            · rw [nodeRun_skip_take _ _ _ hchain, nodeRun_append, nodeRun_skip _ _ hchain]
+              generalize n - (mkdirChain t.rel).length = k
+              match k with
+              | 0 =>
+                rcases hi1 with h1 | h1
+                · left; simpa using h1
+                · right; right; simp only [List.take_zero, nodeRun_nil, h1]; exact gone
+              | k + 1 => right; left; simp
       | symlink text =>
         have hL : stepsOfH cfg thr ch sfx h old t = symlinkSteps old t.rel text := by
           unfold stepsOfH; simp only [hdry, hpay]
